@@ -735,6 +735,9 @@ class Generator:
                 'spec_src': spec.get('_src')}
         is_decl = f['body'] is None
         sig_text = name_return(f['sig'], spec['ret'])
+        cont0 = spec['container'] or ''
+        if not (cont0.startswith('trait ') or ' for ' in cont0):
+            sig_text = 'pub ' + sig_text
         body_tag = {'fn': fnid, 'section': 'body', 'label': 'body', 'props': spec['props']}
         hoisted = []
         segs = None
